@@ -104,6 +104,24 @@ theorem suffix_is_drop (env : Env) (s : List Nat) (pre post : List (Entry Token)
     (h : tokenizeSpans env s = .ok (pre ++ post)) : slices post = s.drop (slices pre).length := by
   rw [(suffix_stable env s pre post h).1]; simp
 
+/-- **slice_is_text**: for every token that determines its source text (`Token.text`: unquoted
+words and keywords, numbers, punctuation and operators, placeholders, custom operators, single-line
+and multi-line comments, `Tab`, `Char`) the consumed slice is exactly that text.  Quoted literals,
+delimited identifiers, `Neq` (`<>`/`!=`), `Newline` (`\n`, `\r`, `\r\n`), `Space` (any whitespace
+character) and `HexStringLiteral` have no determined text and are not constrained here. -/
+theorem slice_is_text (env : Env) (s : List Nat) (ts : List (Entry Token))
+    (h : tokenizeSpans env s = .ok ts) :
+    ∀ e ∈ ts, ∀ x, e.tok.text = some x → e.slice = x := by
+  intro e he x hx
+  obtain ⟨rest, hn⟩ := tokLoop_entries (nextToken_ok env) _ _ _ _ h e he
+  have := nextToken_text env _ _ _ _ hn hx
+  exact List.append_cancel_right this
+
+/-- the one-step form: what `next_token` consumed is the text of the token it returned -/
+theorem next_token_text (env : Env) (s : List Nat) (t : Token) (rest x : List Nat)
+    (h : nextToken env s = .ok (some (t, rest))) (ht : t.text = some x) : s = x ++ rest :=
+  nextToken_text env s t rest x h ht
+
 /-! ## non-vacuity -/
 
 def asciiBit (t : List Bool) (c : Nat) : Bool := t.getD c false
@@ -164,5 +182,19 @@ example : (tokenizeSpans (genericEnv true) [13, 10, 97]).toOption.map
       (fun ts => ts.map fun (x : Entry Token) => (x.tok, x.loc.line, x.loc.col, x.slice)) =
     some [(Token.whitespace .newline, 1, 1, [13, 10]), (Token.word ⟨[97], none, none⟩, 2, 1, [97])] := by
   decide +kernel
+
+/-- texts of the sample's tokens: keyword, identifier, layout and the comment of a second sample
+are their slices; the string literal has no determined text -/
+example : (tokenizeSpans (genericEnv true) sample).toOption.map
+      (fun ts => ts.map fun (x : Entry Token) => x.tok.text) =
+    some [some [83, 69, 76, 69, 67, 84], none, none, none, none, none, some [70, 82, 79, 77], none,
+      some [116]] := by decide +kernel
+
+/-- a number with exponent, a line comment up to its newline, a nested block comment and the
+operator `->>` (code points below): each slice equals the token's text -/
+example : (tokenizeSpans (genericEnv true)
+      [49, 46, 53, 101, 51, 45, 45, 32, 99, 10, 47, 42, 32, 97, 32, 47, 42, 32, 98, 32, 42, 47, 32, 42, 47, 45, 62, 62]).toOption.map
+      (fun ts => ts.map fun (x : Entry Token) => (x.tok.text == some x.slice, x.slice.length)) =
+    some [(true, 5), (true, 5), (true, 15), (true, 3)] := by decide +kernel
 
 end SqlVerif.Props.C09
